@@ -149,7 +149,7 @@ PROPS = {
     },
     "C06": {
         "streams": [
-            {"name": "proof", "mode": "proof", "quick": 600, "thorough": 12000, "args": []},
+            {"name": "proof", "mode": "proof", "quick": 3000, "thorough": 40000, "args": []},
         ],
         "relevant": lambda kind, rec, case: True,
         "lean_modules": ["Pumpkin.Check.DrcpCheck", "Pumpkin.Check.AtomRup"],
